@@ -52,23 +52,9 @@ func c09resMB(gb float32) (string, bool) {
 	return i.String(), acc == big.Exact
 }
 
-// the harness's copy of parsenum.go roundUpTo, to canonicalise the `threads`
-// text the model keeps (trusted: strconv and this arithmetic)
-func c09resRoundUpTo(value float32, granularity float64) float32 {
-	return c09RoundUpTo(value, granularity) // harness/c09.go: the one copy of parsenum.go roundUpTo
-}
-
-func c09resCanonThreads(raw string) string {
-	var v float32
-	if i, err := strconv.ParseInt(raw, 10, 64); err == nil {
-		v = float32(i)
-	} else if f, err := strconv.ParseFloat(raw, 32); err == nil {
-		v = float32(f)
-	} else {
-		return "?" + raw
-	}
-	return fmt.Sprintf("%g", c09resRoundUpTo(v, 100))
-}
+// the `threads` text the model keeps, canonicalised by the REAL conversion (harness/c09.go
+// c09RealThreads = the abstract h of the model)
+func c09resCanonThreads(raw string) string { return c09RealThreads(raw) }
 
 // canonThreadsEnc rewrites the threads word (index 7) of a Stage0 encoding
 func c09resCanonEnc(enc string) string {
